@@ -5,6 +5,7 @@
 open BinNums
 open Vx
 open C01Model
+open C01FileModel
 
 let res_str (r : coq_N list Base.res) : string =
   match r with
@@ -22,6 +23,19 @@ let observe (bs : coq_N list) : string =
   | Base.Err -> "dec=err"
   | Base.Panic -> "dec=panic"
   | Base.OutOfFuel -> "dec=fuel"
+
+(* whole files: DecodeFileSR with the File-level rules, File.Encode / File.EncodeSW in box-tree mode.  A file that reaches
+   TrafBox.ParseReadSenc is outside the model (separate outcome, compared with nothing). *)
+let observe_file (bs : coq_N list) : string =
+  match decode_file_sr bs with
+  | FOk ts ->
+    Printf.sprintf "dec=ok;names=%s;frag=%d;exact=%d;encw=%s;encsw=%s"
+      (S.concat "," (L.map (fun t -> hex_of_bytes (box_name t)) ts)) (if file_frag ts then 1 else 0)
+      (if L.for_all exact_box ts then 1 else 0) (res_str (file_encode_w ts)) (res_str (file_encode_sw ts))
+  | FErr -> "dec=err"
+  | FPanic -> "dec=panic"
+  | FFuel -> "dec=fuel"
+  | FSencParse -> "outside"
 
 (* drop the exact= field (model-only information) before comparing *)
 let strip_exact (s : string) : string =
@@ -117,6 +131,13 @@ let () =
           if strip_exact m = obs then Printf.printf "OK %s %s\n" id
               (if S.length m > 7 && S.sub m 0 6 = "dec=ok" then
                  (if L.mem "exact=1" (split_on ';' m) then "exact" else "inexact") else "rej")
+          else Printf.printf "MISMATCH %s model=%s\n" id m
+        | ["F"; id; inhex; obs] ->
+          let m = observe_file (bytes_of_hex inhex) in
+          if m = "outside" then Printf.printf "OK %s outside\n" id
+          else if strip_exact m = obs then Printf.printf "OK %s %s\n" id
+              (if S.length m > 7 && S.sub m 0 6 = "dec=ok" then
+                 (if L.mem "exact=1" (split_on ';' m) then "file-exact" else "file-inexact") else "file-rej")
           else Printf.printf "MISMATCH %s model=%s\n" id m
         | ["W"; id; inhex] -> Printf.printf "WHY %s %s\n" id (why (bytes_of_hex inhex))
         | _ -> Printf.printf "BADLINE %s\n" line)
